@@ -98,6 +98,26 @@ def run(ck, pid=PID, level="cache", props=PROPS):
     j2()
     idx_steer = su.check_index(i_steer, "steer")
     idx_stress = su.check_index(i_stress, "stress")
+    # coverage scenarios the steering did not realise (loaded machine) are run once more, on their own
+    all_ev = vkit.read_ndjson(t_steer)
+    missing = []
+    for k, sc in enumerate(scripts):
+        nm = sc.get("name", "")
+        if nm.startswith("cover-"):
+            r = idx_steer[k]
+            if not su.realised(nm[6:], all_ev[r["start"] - 1:r["end"]]):
+                missing.append(sc)
+    t_again = None
+    if missing:
+        ck.log("coverage scenarios not realised, run again: %s" % [m["name"] for m in missing])
+        spath2 = os.path.join(ck.tmp, "scripts2.ndjson")
+        vkit.write_ndjson(spath2, missing)
+        t_again, i_again = os.path.join(ck.tmp, "again.ndjson"), os.path.join(ck.tmp, "again.index.json")
+        ck.harness(binp, ["run", ppath, spath2, t_again, i_again, 8], timeout=1200)
+        idx_again = su.check_index(i_again, "again")
+        ev2 = vkit.read_ndjson(t_again)
+        ck.setcov("coverage_scenarios_unrealised", [m["name"] for k, m in enumerate(missing)
+                                                    if not su.realised(m["name"][6:], ev2[idx_again[k]["start"] - 1:idx_again[k]["end"]])])
     ck.setcov("steer_miss", sum(r["steer_miss"] for r in idx_steer))
     ck.setcov("gate_timeouts", sum(r["timeouts"] for r in idx_steer) + sum(r["timeouts"] for r in idx_stress))
 
@@ -118,6 +138,9 @@ def run(ck, pid=PID, level="cache", props=PROPS):
     if not v1.accepted:     # a probe that was not steered exactly may not discriminate: full search before a verdict
         v1 = su.validate(ck, t_steer, trace_cfg, timeout=2400)
     v2 = su.validate(ck, t_stress, trace_cfg, only_world=v1.world if v1.accepted else None, timeout=2400)
+    if t_again and v1.accepted:
+        v3 = su.validate(ck, t_again, trace_cfg, only_world=v1.world, timeout=1200)
+        su.judge(ck, pid, v3, t_again, idx_again, missing, level, props, "again")
     ck.setcov("traces_validated_against_impl", len(scripts) + n_stress)
     ck.setcov("steered_behaviours", len(scripts))
     ck.setcov("stress_behaviours", n_stress)
